@@ -299,7 +299,9 @@ func fnAtoms(fn *ssa.Function, assume map[string]*regexp.Regexp) (map[*ssa.If]No
 		for k := range atoms {
 			keys = append(keys, k)
 		}
-		sort.Slice(keys, func(i, j int) bool { return count[keys[i]] > count[keys[j]] || (count[keys[i]] == count[keys[j]] && keys[i] < keys[j]) })
+		sort.Slice(keys, func(i, j int) bool {
+			return count[keys[i]] > count[keys[j]] || (count[keys[i]] == count[keys[j]] && keys[i] < keys[j])
+		})
 		for _, k := range keys[14:] {
 			delete(atoms, k)
 		}
